@@ -1,0 +1,17 @@
+//go:build verif
+
+// Contracts for the govc verifier (/verif). Comment-only: this file contains no code.
+package uuid
+
+//@ spec fun uuidPos(i int) int = i < 4 ? 2*i : (i < 6 ? 2*i + 1 : (i < 8 ? 2*i + 2 : (i < 10 ? 2*i + 3 : 2*i + 4)))
+//@ spec fun hexlc(d int) int = d < 10 ? 48 + d : 87 + d
+//@
+//@ func ToString
+//@   props C20
+//@   requires len(halfbyte2hexchar) == 16 && string(halfbyte2hexchar) == "0123456789abcdef"
+//@   ensures nopanic
+//@   ensures len(result) == 36 && result[8] == '-' && result[13] == '-' && result[18] == '-' && result[23] == '-'
+//@   ensures forall j int :: 0 <= j && j < 16 ==> result[uuidPos(j)] == hexlc(int(u[j]) / 16) && result[uuidPos(j)+1] == hexlc(int(u[j]) % 16)
+//@   loop 1 invariant 0 <= i && i <= 16
+//@   loop 1 invariant forall j int :: 0 <= j && j < i ==> b[uuidPos(j)] == hexlc(int(u[j]) / 16) && b[uuidPos(j)+1] == hexlc(int(u[j]) % 16)
+//@   loop 1 decreases 16 - i
